@@ -29,10 +29,12 @@ From Verif Require Export Draw.Stacking Draw.PaintSpec.
 From Coq Require Import List ZArith NArith Bool.
 Import ListNotations.
 
-(* flags: 1 positioned, 2 z-index auto, 4 floated, 8 opacity<1, 16 transform, 32 overflow != visible *)
+(* flags: 1 positioned, 2 z-index auto, 4 floated, 8 opacity<1, 16 transform, 32 overflow != visible,
+   64 the transform matrix is not invertible *)
 Definition mkb (id : N) (k : kind) (flags : N) (z : Z) (vis : N) : binfo :=
   mkB id k (N.testbit flags 0) (if N.testbit flags 1 then None else Some z)
-      (N.testbit flags 2) (N.testbit flags 3) (N.testbit flags 4) (N.testbit flags 5) vis.
+      (N.testbit flags 2) (N.testbit flags 3) (N.testbit flags 4) (N.testbit flags 5) vis
+      (N.testbit flags 6).
 
 (* a backend event whose colour names no box *)
 Definition Unknown (n : N) : event := TableLayers (1000000000 + n).
